@@ -1787,6 +1787,7 @@ func (vc *VC) next(st *State, x *ssa.Next) {
 		vc.setFresh(st, x, "next")
 		return
 	}
+	seen = vc.patSafe(seen, "(Array "+ks+" Bool)")
 	ok := vc.declare(x.Name()+"_ok", "Bool")
 	k := vc.declare(x.Name()+"_k", ks)
 	v := vc.declare(x.Name()+"_v", es)
